@@ -89,6 +89,9 @@ func checkC16(c *Ctx) {
 		c.closedEndsWait(m)
 	}
 	c.drainBeforeEOF()
+	// teardown delivers the will: a delivery larger than a subscriber's ring must be refused, not waited for
+	c.ringMemorySafety()
+	c.ringSpaceAccounting()
 
 	teardownOrder(c, "C16")
 	// what teardown deregisters is the session record: a tree registration must be recorded in the same step
